@@ -212,7 +212,7 @@ impl P {
                 let is_textarea = name == "textarea";
                 self.stack.push(Frame { tag: name, attrs, kids: vec![] });
                 if is_textarea && self.peek() == Some('\n') {
-                    return None; // the tree builder would drop it
+                    self.i += 1; // "if the next token is a U+000A LINE FEED, ignore that token"
                 }
                 Some(())
             }
